@@ -959,3 +959,49 @@ REGISTRY["C12"] = dict(
                "carried by the store checks (every frame written is read back through fjall+serde in C01/C05); a meta nested "
                "deeper than serde_json's recursion limit can only be produced by a Nushell script and is not covered here.",
     assumptions=["heartbeat durations are whole milliseconds < 2^64 (Duration::from_millis is the only constructor any entry point uses)"])
+
+
+def c17_run(ctx):
+    n = 6 if ctx.tier == "quick" else 120
+    seeds = [ctx.rnd.randrange(1, 10 ** 9) for _ in range(n)]
+    from concurrent.futures import ThreadPoolExecutor
+    with ThreadPoolExecutor(max_workers=4) as ex:
+        reps = list(ex.map(lambda sd: V.run_restart_scenario(sd, 12 if ctx.tier == "quick" else 20, kill=(sd % 3 != 0)), seeds))
+    n_hist = 0
+    for sd, r in zip(seeds, reps):
+        n_hist += r.get("n_hist", 0)
+        for v in r["violations"][:3]:
+            ctx.violation(v["what"][:700], dict(engine="V", seed=sd, scenario="restart", events=r["events"], detail={k: str(x)[:300] for k, x in v.items() if k != "what"}))
+    ctx.coverage.update(dict(
+        evaluations=len(seeds), distinct_nontrivial=sum(1 for r in reps if r.get("n_hist", 0) >= 5),
+        rule="one evaluation = one scenario on the real server (api + handlers + generators + commands): a history of "
+             "register / unregister / replace / invalid registration, duplex generator spawns (incl. refused ones), command "
+             "define / redefine / invalid define / call over several names and 2-3 contexts (same name in different contexts), "
+             "then the server process is killed (2 of 3) or stopped and started again on the same store; probes (triggers, "
+             ".send, .call in every context) show which instances answer, by id: handlers and generators must be exactly those "
+             "the extracted specification (keyed by (context, name)) computes from the stored history, commands must answer as "
+             "before the restart, and no historical trigger or call may be re-executed; non-trivial = >= 5 dispatcher-relevant frames",
+        traces_validated_against_impl=len(seeds), dispatcher_frames_in_histories=n_hist,
+        samples=[dict(seed=seeds[0], events=reps[0]["events"])]))
+
+
+def c17_replay(ctx, obj):
+    r = V.run_restart_scenario(obj["seed"])
+    print(json.dumps(r["violations"], indent=1)[:3000])
+    for v in r["violations"]:
+        ctx.violation("replay: " + v["what"][:600], dict(engine="V", seed=obj["seed"], scenario="restart"))
+    ctx.coverage.update(dict(evaluations=1, distinct_nontrivial=1, samples=[r["events"]]))
+
+
+REGISTRY["C17"] = dict(
+    prop_file="Props/C17.v", engine="V", run=c17_run, replay=c17_replay,
+    level_text="Coq: with tables keyed by (context, name) the start-up replay of handlers / generators / commands returns "
+               "exactly the instances that the history leaves active (latest registration not ended or replaced; latest spawn "
+               "not refused; latest definition), with their ids, in id order; ended ones never come back; the pinned name-keyed "
+               "tables are refuted by computed witnesses and proved correct only when a name lives in one context. Tie: restart "
+               "scenarios on the real server (process kill / stop, same store), active instances identified by id through probes "
+               "and compared with the extracted specification.",
+    level_note=HANDLER_NOTE + " Commands are keyed by name only both while running and at start-up (consistent across a restart; "
+               "the check requires the same answers before and after). A user `.unregister` not yet answered by `.unregistered` "
+               "when the process dies is outside the model (the handler returns after restart).",
+    assumptions=["ids in the stored history are increasing (C01/C02)"])
